@@ -1,6 +1,7 @@
 package props
 
 import (
+	"math"
 	"bytes"
 	"compress/gzip"
 	"encoding/json"
@@ -78,6 +79,17 @@ func (c19) Gen(r *rand.Rand, tier string, i int) any {
 	pool := make([]gen.Val, 3+r.Intn(8))
 	for k := range pool {
 		pool[k] = gen.RandVal(r, o, 0)
+	}
+	if !o.NoTime && r.Intn(5) == 0 {
+		// the ends of the value ranges: the first and last representable instants (1677-09-21, 2262-04-11), the last
+		// instant of 1677, extreme durations, integers and floats, bare or inside a list
+		b := []gen.Val{gen.TimeV(math.MinInt64), gen.TimeV(math.MinInt64 + 1), gen.TimeV(-9214560000000000001), gen.TimeV(-9214560000000000000),
+			gen.TimeV(math.MaxInt64), gen.TimeV(math.MaxInt64 - 1), gen.Dur(math.MinInt64), gen.Dur(math.MaxInt64), gen.Num(math.MinInt64),
+			gen.Num(math.MaxInt64), gen.Float(math.MaxFloat64), gen.Float(-math.MaxFloat64), gen.Float(math.SmallestNonzeroFloat64), gen.Float(math.Copysign(0, -1))}[r.Intn(14)]
+		if r.Intn(3) == 0 {
+			b = gen.ListV(b, gen.Num(1))
+		}
+		pool[r.Intn(len(pool))] = b
 	}
 	if i%150 == 77 {
 		// a value whose printed form is longer than 64 KiB (one column line of the file): a long string, a long
